@@ -300,9 +300,14 @@ func (ch c08) multiBind(c *core.Ctx, env *hs.Env, rng *core.Rng) {
 		pf, rf []int16
 	}
 	var ps []pb
+	long := rng.Intn(4) == 0
 	in := pg.Parse("s", "q", nil)
 	for i := 0; i < n; i++ {
-		b := pb{name: fmt.Sprintf("p%d", i), params: [][]byte{[]byte(fmt.Sprintf("portal-%d", i)), rng.Bytes(1 + rng.Intn(12))}}
+		pname := fmt.Sprintf("p%d", i)
+		if long {
+			pname = strings.Repeat("portal-name-", 6)[:63] + fmt.Sprintf("-%d", i) // (names that differ only behind their 63rd byte)
+		}
+		b := pb{name: pname, params: [][]byte{[]byte(fmt.Sprintf("portal-%d", i)), rng.Bytes(1 + rng.Intn(12))}}
 		switch rng.Intn(3) {
 		case 1:
 			b.pf = []int16{int16(rng.Intn(2))}
